@@ -337,7 +337,11 @@ class BaseTemplate:
     def digest(self, body: str, names: Collection[str]) -> str:
         class_name = type(self).__name__.encode('utf-8')
         sha = get_pkg_digest()
-        sha.update(body.encode('utf-8', 'ignore'))
+        body_bytes = body.encode('utf-8', 'ignore')
+        # the length keeps body and class name apart ("x" + "SubA" and
+        # "xSub" + "A" are different templates)
+        sha.update(b'%d;' % len(body_bytes))
+        sha.update(body_bytes)
         sha.update(class_name)
         digest = sha.hexdigest()
 
